@@ -29,31 +29,27 @@ def step_tie(ctx, n_req, n_resp):
         got = L.req_clock_once(py4hw, W, st, valid, c)
         items.append('(%s)' % L.coq_req_clock(W, st, valid, c)); exp.append(got)
         ctx.count(('req-step', st['state'], st['new_c'] if st['state'] == 2 else valid, st['temp'] == 0))
-    res = common.coq_eval('C20_reqstep', L.PRELUDE, [('all', '[' + '; '.join(items) + ']')])['all']
-    for got, mv in zip(exp, res):
-        if L.norm(mv) != L.norm(got['model_form']):
-            return {'what': 'generated CMDRequest_clock disagrees with CMDRequest.clock()', 'case': got['case'],
-                    'impl': got['model_form'], 'model': mv}
-    items, exp = [], []
+    items2, exp2 = [], []
     for k in range(n_resp):
         wvalid, wv = rng.choice([1, 1, 2]), rng.choice([8, 8, 7, 9])
         st = {'state': rng.choice(list(range(7)) * 3 + [7, 9]), 'temp': rng.choice([0, rng.randint(0, 255), rng.randint(0, 1 << 40)]),
               'temp_size': rng.randint(0, 11), 'aux': rng.randint(0, 15)}
         ins = {'vin': rng.randint(0, (1 << 32) - 1), 'size': rng.randint(1, 12), 'start_resp': rng.randint(0, 1), 'ready': rng.randint(0, 1)}
         got = L.resp_clock_once(py4hw, wvalid, wv, st, ins)
-        items.append('(%s)' % L.coq_resp_clock(wvalid, wv, st, ins)); exp.append(got)
+        items2.append('(%s)' % L.coq_resp_clock(wvalid, wv, st, ins)); exp2.append(got)
         ctx.count(('resp-step', st['state'], ins['ready'], ins['start_resp'], st['temp_size'] == 0))
-    res = common.coq_eval('C20_respstep', L.PRELUDE, [('all', '[' + '; '.join(items) + ']')])['all']
-    for got, mv in zip(exp, res):
-        if L.norm(mv) != L.norm(got['model_form']):
-            return {'what': 'generated CMDResponse_clock disagrees with CMDResponse.clock()', 'case': got['case'],
-                    'impl': got['model_form'], 'model': mv}
+    res = common.coq_eval('C20_step', L.PRELUDE, [('req', '[' + '; '.join(items) + ']'), ('resp', '[' + '; '.join(items2) + ']')])
+    for cls, ex, rs in (('CMDRequest', exp, res['req']), ('CMDResponse', exp2, res['resp'])):
+        for got, mv in zip(ex, rs):
+            if L.norm(mv) != L.norm(got['model_form']):
+                return {'what': 'generated %s_clock disagrees with %s.clock()' % (cls, cls), 'case': got['case'],
+                        'impl': got['model_form'], 'model': mv}
     return None
 
 
 # ------------------------------------------------------------------ (b)+(c) closed-loop sweeps
-def req_sweep(ctx, n, with_coq, kernel_n=6):
-    """returns ('spec', replay) for impl != spec, ('tie', info) for impl != model, None when all agree."""
+def req_collect(ctx, n, with_dump, kernel_n=6):
+    """drive n random command streams through the real decoder; ('spec', replay) on the first impl != spec, else the runs."""
     py4hw = common.quiet_import()
     runs = []
     for i in range(n):
@@ -61,7 +57,7 @@ def req_sweep(ctx, n, with_coq, kernel_n=6):
         W = L.random_widths(rng)
         cmds = L.random_cmds(rng, i)
         sched = L.random_sched(rng, cmds)
-        run = L.run_request(py4hw, W, sched, want_dump=with_coq and i < kernel_n)
+        run = L.run_request(py4hw, W, sched, want_dump=with_dump and i < kernel_n)
         run.update(W=W, cmds=cmds, sched=sched, idx=i)
         bad = L.judge_request(run)
         ctx.count(('req', tuple((c[0], len(c[1]) if c[0] != 'X' else c[1]) for c in cmds), tuple(sorted(W.items()))), n=len(run['trace']))
@@ -70,39 +66,16 @@ def req_sweep(ctx, n, with_coq, kernel_n=6):
         if bad:
             return ('spec', L.req_replay(run, bad))
         runs.append(run)
-    if not with_coq:
-        return None
-    items = []
-    for k, run in enumerate(runs):
-        items.append(('q%d' % k, L.coq_req_case(run)))
-    res = common.coq_eval('C20_req', L.PRELUDE + L.CASE_DEFS, items, timeout=900)
-    for k, run in enumerate(runs):
-        diff, ev_impl, ev_spec, left = res['q%d' % k]
-        if L.norm(ev_spec) != L.norm([list(e) for e in L.py_expected(run['cmds'], run['W'])]):
-            return ('tie', {'what': 'the Python copy of the spec disagrees with Spec/C20.v (harness defect)', 'cmds': run['cmds'],
-                            'coq': ev_spec})
-        if L.norm(ev_impl) != L.norm(ev_spec):
-            return ('spec', L.req_replay(run, 'events of the real trace (evaluated by Spec.C20.events in Coq) differ from expected'))
-        if diff is not None or left != 0:
-            return ('tie', {'what': 'Model/Cmd.v sys_trace over the regenerated CMDRequest_clock differs from the real block',
-                            'first_diff(cycle,(wire,impl,model))': diff, 'producer_items_left_in_model': left,
-                            'stream': L.cmds_text(run['cmds']), 'widths': run['W'], 'sched': run['sched']})
-    batch = [(r['dump'], r['steps'], r['init'], r['full_trace']) for r in runs if r.get('dump') is not None]
-    if batch:
-        for (dp, steps, iv, tr), df in zip(batch, netlist.compare('C20_kernel_req', batch)):
-            if df is not None:
-                return ('tie', {'what': 'kernel model (SimKernel + generated CMDRequest_clock) differs from the real simulator', 'diff': df})
-        ctx.notes['kernel_model_decoder_runs'] = len(batch)
-    return None
+    return runs
 
 
-def resp_sweep(ctx, n, with_coq, kernel_n=6):
+def resp_collect(ctx, n, with_dump, kernel_n=6):
     py4hw = common.quiet_import()
     runs = []
     for i in range(n):
         rng = random.Random(ctx.seed * 200003 + i)
         cfg = L.random_resp_cfg(rng, i)
-        run = L.run_response(py4hw, cfg, rng, want_dump=with_coq and i < kernel_n)
+        run = L.run_response(py4hw, cfg, rng, want_dump=with_dump and i < kernel_n)
         run['idx'] = i
         bad = L.judge_response(run)
         ctx.count(('resp', cfg['wvin'], tuple((v, k) for v, k in cfg['requests']), cfg['pace']), n=len(run['ins']))
@@ -111,11 +84,24 @@ def resp_sweep(ctx, n, with_coq, kernel_n=6):
         if bad:
             return ('spec', L.resp_replay(run, bad))
         runs.append(run)
-    if not with_coq:
-        return None
-    items = [('r%d' % k, L.coq_resp_case(run)) for k, run in enumerate(runs)]
-    res = common.coq_eval('C20_resp', L.PRELUDE + L.CASE_DEFS, items, timeout=900)
-    for k, run in enumerate(runs):
+    return runs
+
+
+def coq_compare(ctx, qruns, rruns):
+    """one case file: every wire of every cycle vs Model/Cmd.v, real events / characters vs Spec/C20.v; one kernel-model comparison."""
+    items = [('q%d' % k, L.coq_req_case(run)) for k, run in enumerate(qruns)] + [('r%d' % k, L.coq_resp_case(run)) for k, run in enumerate(rruns)]
+    res = common.coq_eval('C20_sweep', L.PRELUDE, items, timeout=900)
+    for k, run in enumerate(qruns):
+        diff, ev_impl, ev_spec, left = res['q%d' % k]
+        if L.norm(ev_spec) != L.norm([list(e) for e in L.py_expected(run['cmds'], run['W'])]):
+            return ('tie', {'what': 'the Python copy of the spec disagrees with Spec/C20.v (harness defect)', 'cmds': run['cmds'], 'coq': ev_spec})
+        if L.norm(ev_impl) != L.norm(ev_spec):
+            return ('spec', L.req_replay(run, 'events of the real trace (evaluated by Spec.C20.events in Coq) differ from expected'))
+        if diff is not None or left != 0:
+            return ('tie', {'what': 'Model/Cmd.v sys_trace over the regenerated CMDRequest_clock differs from the real block',
+                            'first_diff(cycle,(wire,impl,model))': diff, 'producer_items_left_in_model': left,
+                            'stream': L.cmds_text(run['cmds']), 'widths': run['W'], 'sched': run['sched']})
+    for k, run in enumerate(rruns):
         diff, xf_model, resp_spec = res['r%d' % k]
         if L.norm(resp_spec) != L.norm(L.py_responses(run['cfg']['requests'])):
             return ('tie', {'what': 'the Python copy of the response spec disagrees with Spec/C20.v (harness defect)', 'coq': resp_spec})
@@ -123,14 +109,14 @@ def resp_sweep(ctx, n, with_coq, kernel_n=6):
             return ('spec', L.resp_replay(run, 'transferred characters differ from Spec.C20.response'))
         if diff is not None or L.norm(xf_model) != L.norm(run['xfers']):
             return ('tie', {'what': 'Model/Cmd.v rs_run over the regenerated CMDResponse_clock differs from the real block',
-                            'first_diff(cycle,(wire,impl,model))': diff, 'model_xfers': xf_model, 'impl_xfers': run['xfers'],
-                            'cfg': run['cfg']})
-    batch = [(r['dump'], r['steps'], r['init'], r['full_trace']) for r in runs if r.get('dump') is not None]
+                            'first_diff(cycle,(wire,impl,model))': diff, 'model_xfers': xf_model, 'impl_xfers': run['xfers'], 'cfg': run['cfg']})
+    batch = [(r['dump'], r['steps'], r['init'], r['full_trace']) for r in qruns + rruns if r.get('dump') is not None]
     if batch:
-        for (dp, steps, iv, tr), df in zip(batch, netlist.compare('C20_kernel_resp', batch)):
+        for (dp, steps, iv, tr), df in zip(batch, netlist.compare('C20_kernel', batch)):
             if df is not None:
-                return ('tie', {'what': 'kernel model (SimKernel + generated CMDResponse_clock) differs from the real simulator', 'diff': df})
-        ctx.notes['kernel_model_encoder_runs'] = len(batch)
+                return ('tie', {'what': 'kernel model (SimKernel + generated clock functions) differs from the real simulator', 'diff': df,
+                                'block': type(dp.seq_objs[0]).__name__})
+        ctx.notes['kernel_model_runs'] = len(batch)
     return None
 
 
@@ -191,16 +177,22 @@ def run(ctx):
             have_model = False
             tie = {'what': 'the Coq model of C20 no longer builds', 'coq_error': str(ex)[-1500:]}
     found = None
-    for sweep, n in ((req_sweep, 36 if q else 400), (resp_sweep, 30 if q else 300)):
+    qruns = req_collect(ctx, 36 if q else 400, have_model)
+    rruns = [] if isinstance(qruns, tuple) else resp_collect(ctx, 30 if q else 300, have_model)
+    for x in (qruns, rruns):
+        if isinstance(x, tuple) and found is None: found = x[1]
+    ctx.log('real-block sweeps: %s' % ('impl != spec' if found else 'impl = python copy of the spec'))
+    if found is None and have_model:
         try:
-            res = sweep(ctx, n, have_model)
+            res = None
+            for a in range(0, max(len(qruns), len(rruns)), 60):       # <= 120 runs per case file
+                res = coq_compare(ctx, qruns[a:a + 60], rruns[a:a + 60])
+                if res: break
         except RuntimeError as ex:
-            res = ('tie', {'what': 'case file failed in Coq', 'coq_error': str(ex)[-1500:]}); have_model = False
-        ctx.log('%s: %s' % (sweep.__name__, 'ok' if not res else res[0]))
-        if res and res[0] == 'spec':
-            found = res[1]; break
-        if res and tie is None:
-            tie = res[1]
+            res = ('tie', {'what': 'case file failed in Coq', 'coq_error': str(ex)[-1500:]})
+        ctx.log('Coq comparison (Model/Cmd.v, Spec/C20.v, kernel model): %s' % ('ok' if not res else res[0]))
+        if res and res[0] == 'spec': found = res[1]
+        elif res and tie is None: tie = res[1]
     size0_finding(ctx)
     broken = (not r['ok']) or missing or tie is not None
     if found is None and (broken or not q):
